@@ -45,6 +45,16 @@ def cases(tier, rng, schema, feats):
         for _ in range(2 * k):
             out.append(f"C16.dec.{n}\tdec2\t{bytes([cmd]).hex()}{cbor.enc(g.named_wire(t)).hex()}")
             n += 1
+    # members whose size is near a feature-dependent constant (LARGE_BLOB_MAX_FRAGMENT_LENGTH = 0 / 3008; the
+    # message limit): the same request must be accepted or rejected alike in every configuration
+    for L in (0, 1, 16, 17, 3007, 3008, 3009, 3072, 4000):
+        for extra in ([], [(4, L)], [(5, b"\x01" * 16), (6, 2)]):
+            tree = cbor.M([(2, rng.bytes(L)), (3, 0)] + extra)
+            out.append(f"C16.dec.{n}\tdec2\t0c{cbor.enc(tree).hex()}")
+            n += 1
+    for get in (0, 1, 255, 256, 3007, 3008, 3009, 65535, 2**32 - 1):
+        out.append(f"C16.dec.{n}\tdec2\t0c{cbor.enc(cbor.M([(1, get), (3, 0)])).hex()}")
+        n += 1
     for t, d in base.items():
         if d["kind"] == "struct" and d["de"]:
             for _ in range(k):
